@@ -19,11 +19,23 @@ cache in force at the start of the block (`saved_dist_cache_`) and the recoder p
                        text; `OpsOK`; the word oracle agreeing with the looked-up dictionary slots) and `OracleOK`
                        (the recoder's `TransformDictionaryWord` callee = the same word oracle).
 
+* `merged_metablock_q29` / `recode_replays_input_q29_merged` — the same for a meta-block that MERGES several
+                       `CreateBackwardReferences` calls (encode.rs keeps appending the commands of successive input
+                       blocks to one meta-block; the `last_insert_len` pending after a call becomes the insert length of
+                       the next call's first command): `Merged` (BV/Lemmas/CbrMerge.lean) records any sequence of calls —
+                       per call any hasher type / state, the ring-buffer contents of that moment, the carried distance
+                       cache and `last_insert_len` — and the closed command array of the whole meta-block satisfies
+                       `cmdOK`, `lockstep`, `CmdsWF` and `PayloadOK`.  NOT covered: `extend_last_command`, which
+                       `encode_data` runs between two merged calls when the previous call ended exactly on a copy
+                       (`last_insert_len = 0`) and which lengthens that copy if the new input continues it; `Merged`
+                       describes the call sequences in which it changes nothing.
+
 Still assumed / out of scope: quality 10/11 (Zopfli model, C01zzzzy), quality 0/1 (no commands: fragment writers),
-NPOSTFIX/NDIRECT ≠ 0 (FONT mode), the 3 GiB position wrap.
+NPOSTFIX/NDIRECT ≠ 0 (FONT mode), the 3 GiB position wrap, `extend_last_command`.
 -/
 import BV.Props.C01Chain
 import BV.Props.C14
+import BV.Lemmas.CbrMerge
 
 namespace BV.Props.C14Chain
 open BV.Hasher BV.MatchFinder BV.Recoder BV.PrefixArith BV.MetaBlock BV.Cbr BV.Props.C01Chain BV.Props.C14
@@ -210,6 +222,68 @@ theorem recode_replays_input_q29_h9 (P : H9P) (lbs : Nat) (p : Params) (large : 
   recode_replays_input_q29 _ p large wo data k tail hist i0 i1 lo hb (h9Ops_ok _ P lbs _ data k hk p hd)
     numBytes position (st0, c0) cache lastInsertLen numLiterals res hpos hmb hc hcl h e hdp hlg horacle ir nbe' hm
 
+
+/-! ### meta-blocks merged from several `CreateBackwardReferences` calls -/
+
+/-- what is recorded about every command: the writers' `cmdOK` and C14's well-formedness -/
+def GoodCmd (large : Bool) (c : Cmd) : Prop :=
+  cmdOK (distAlphabetSize large 0 0) 0 0 c = true ∧ DistWF c ⟨0, 0⟩ ∧ c.insertLen < 2 ^ 32
+
+/-- the per-call obligation of `Merged.call` from the chain's `BlockOK` of the call's LOCAL view (history =
+everything the decoder has produced when the call's first command starts, block = pending literals ++ the call's
+`num_bytes`) -/
+theorem emitHyp_good (wo : WordOracle) (p : Params) (large : Bool) (data : ByteArray) (k tail : Nat) (hist mb : Bytes)
+    (lo : Nat) (hb : BlockOK p large data k tail hist mb lo) :
+    EmitHyp (SlotOK wo) ⟨wo, data, k, hist, mb, lo⟩ p (GoodCmd large) :=
+  emitHyp_mono
+    (emitHyp_all ⟨wo, data, k, hist, mb, lo⟩ p large hb.np hb.nd tail hb.ring hb.tail_le hb.block_le hb.lo_le hb.window
+      hb.std hb.dist hb.len)
+    (fun c hc hne => ⟨hc, distWF_of_cmdOK _ c hc hne, by
+      unfold cmdOK at hc
+      simp only [Bool.and_eq_true, decide_eq_true_eq] at hc
+      have := hc.1.1.1.1.1.1.2
+      omega⟩)
+
+/-- **`merged_metablock_q29`** — a meta-block `M` (≤ 2^24 bytes) whose commands were produced by ANY sequence of
+`CreateBackwardReferences` calls (`Merged`: each call continues where the previous one stopped, with the distance cache
+and `last_insert_len` the previous call returned), closed by the insert-only command: every command is `cmdOK`, the
+array satisfies `lockstep` and `CmdsWF`, and the RFC decoder started with the history and the distance cache of the
+START of the meta-block (`saved_dist_cache_`) replays it to `hist ++ M`. -/
+theorem merged_metablock_q29 (wo : WordOracle) (p : Params) (large : Bool) (hnp : p.npostfix = 0) (hnd : p.ndirect = 0)
+    (hist M : Bytes) (cache0 : List Int) (h24 : M.length ≤ 2 ^ 24) (h64 : hist.length + M.length < 2 ^ 64)
+    (hc0 : CacheI32 cache0) (hcl0 : 4 ≤ cache0.length)
+    (cmds : List Cmd) (c : Nat) (cache : List Int) (lil : Nat)
+    (hm : Merged (SlotOK wo) wo p (GoodCmd large) hist M cache0 cmds c cache lil M.length) :
+    (∀ x ∈ closeMetaBlock cmds lil, cmdOK (distAlphabetSize large 0 0) 0 0 x = true) ∧
+    lockstep wo 0 0 (maxBackwardLimit p) M ⟨hist, cache0.take 4, 0⟩ 0 (closeMetaBlock cmds lil) = true ∧
+    CmdsWF (closeMetaBlock cmds lil) ⟨0, 0⟩ ∧
+    replayCommands wo 0 0 (maxBackwardLimit p) M (cache0.take 4) hist (closeMetaBlock cmds lil) = some (hist ++ M) := by
+  obtain ⟨a, b, c'⟩ := merged_close h64 (by omega) hc0 hcl0
+    (fun l _ hl => (⟨cmdOK_initInsert large l (Nat.le_trans hl h24), distWF_initInsert l, by
+      simp only [initInsert]; exact Nat.mod_lt _ (by decide)⟩ : GoodCmd large (initInsert l))) hm
+  rw [hnp, hnd] at a c'
+  exact ⟨fun x hx => (b x hx).1, a, fun x hx => ⟨(b x hx).2.1, (b x hx).2.2⟩, c'⟩
+
+/-- **`recode_replays_input_q29_merged`** — C14's end-to-end statement for a meta-block merged from any number of
+`CreateBackwardReferences` calls, no payload hypothesis: if `LogMetaBlock` does not panic on the closed array, the IR
+replays to `hist ++ input` and `num_bytes_encoded` advances by the meta-block length. -/
+theorem recode_replays_input_q29_merged (wo : WordOracle) (p : Params) (large : Bool) (hnp : p.npostfix = 0)
+    (hnd : p.ndirect = 0) (hwin : maxBackwardLimit p ≤ 2 ^ 30)
+    (hist i0 i1 : Bytes) (cache0 : List Int) (h24 : (i0 ++ i1).length ≤ 2 ^ 24)
+    (h64 : hist.length + (i0 ++ i1).length < 2 ^ 64) (hc0 : CacheI32 cache0) (hcl0 : 4 ≤ cache0.length)
+    (cmds : List Cmd) (c : Nat) (cache : List Int) (lil : Nat)
+    (hm : Merged (SlotOK wo) wo p (GoodCmd large) hist (i0 ++ i1) cache0 cmds c cache lil (i0 ++ i1).length)
+    (e : Env) (hdp : e.dp = ⟨0, 0⟩) (hlg : e.lgwin = p.lgwin) (horacle : OracleOK e.expand wo)
+    (ir : List IR) (nbe' : Nat)
+    (hlog : logMetaBlock e i0 i1 (closeMetaBlock cmds lil) (cache0.take 4) hist.length = some (ir, nbe')) :
+    replayIR wo (windowSize e.lgwin) (i0 ++ i1) ir hist = some (hist ++ (i0 ++ i1)) ∧
+      nbe' = hist.length + (i0 ++ i1).length := by
+  obtain ⟨_, _, hwf, hrep⟩ := merged_metablock_q29 wo p large hnp hnd hist (i0 ++ i1) cache0 h24 h64 hc0 hcl0 cmds c cache
+    lil hm
+  have hE : EnvOK e wo (windowSize e.lgwin) := ⟨rfl, by rw [hlg, windowSize_eq]; omega, horacle⟩
+  exact recode_replays_input wo e i0 i1 _ (cache0.take 4) hist ir nbe' hE (by omega) (cacheOk_take4 cache0 hc0 hcl0)
+    (by rw [hdp]; exact hwf) hlog (by unfold PayloadOK; rw [hdp, hlg, windowSize_eq]; exact hrep)
+
 /-! ### non-vacuity: the run of `BV.Cbr.Example` (8 literals, the static-dictionary word "time", 20 closing literals),
 logged by `LogMetaBlock` — every hypothesis of `recode_replays_input_q29_basic` is met by concrete values, and its
 conclusion is the replay of the IR -/
@@ -254,5 +328,74 @@ example : ∃ res ir, createBackwardReferences (basicOps Example.hasher true 540
       (by intro x hx; simp at hx; rcases hx with rfl | rfl | rfl | rfl <;> decide) (by decide) hr
       exEnv rfl rfl exEnv_oracle _ 32 hlog
     exact ⟨res, _, rfl, hlog, rfl, by simpa [exEnv] using hrep⟩
+
+/-- non-vacuity of `Merged` / `merged_metablock_q29`: the same 32-byte text searched in TWO calls (24 bytes, then 8 bytes
+with the 12 literals pending after the first call carried over); the merged, closed array is the one of the single call -/
+example : ∃ cmds c cache lil,
+    Merged (SlotOK Example.oracle) Example.oracle Example.params (GoodCmd false) [] Example.text [4, 11, 15, 16] cmds c cache
+      lil Example.text.length ∧
+    closeMetaBlock cmds lil = [⟨8, 4, 1, 186, 3092⟩, initInsert 20] ∧
+    replayCommands Example.oracle 0 0 (maxBackwardLimit Example.params) Example.text [4, 11, 15, 16] []
+      (closeMetaBlock cmds lil) = some Example.text := by
+  let ops := basicOps Example.hasher true 540 Example.dict Example.data (2 ^ 6 - 1)
+  have hops : OpsOK (SlotOK Example.oracle) ops Example.params Example.data 6 :=
+    basicOps_ok _ Example.hasher true 540 _ Example.data 6 (by decide) Example.params Example.dict_ok
+  have hring : ∀ n, n ≤ 32 → RingView Example.data 6 32 (Example.text.take n) 0 n := by
+    intro n hn
+    refine ⟨?_, fun p _ hp h64 => absurd h64 (by omega)⟩
+    intro p _ hp
+    have h1 : ∀ p, p < 32 → ringBytes Example.data (p % 2 ^ 6) = Example.text.getD p 0 := by decide +kernel
+    rw [h1 p (by omega)]
+    simp only [List.getD_eq_getElem?_getD, List.getElem?_take, if_pos hp]
+  have hrun1 : (createBackwardReferences ops Example.params 24 0 (Array.replicate 32 0, ⟨0, 0⟩) [4, 11, 15, 16] 0 0).map
+      (fun r => (r.cmds, r.lastInsertLen, r.cache)) = some ([⟨8, 4, 1, 186, 3092⟩], 12, [4, 11, 15, 16]) := by
+    decide +kernel
+  have hrun2 : (createBackwardReferences ops Example.params 8 24 (Array.replicate 32 0, ⟨0, 0⟩) [4, 11, 15, 16] 12 0).map
+      (fun r => (r.cmds, r.lastInsertLen, r.cache)) = some ([], 20, [4, 11, 15, 16]) := by
+    decide +kernel
+  cases hr1 : createBackwardReferences ops Example.params 24 0 (Array.replicate 32 0, ⟨0, 0⟩) [4, 11, 15, 16] 0 0 with
+  | none => rw [hr1] at hrun1; cases hrun1
+  | some res1 =>
+    rw [hr1] at hrun1
+    simp only [Option.map_some, Option.some.injEq, Prod.mk.injEq] at hrun1
+    obtain ⟨e1, e2, e3⟩ := hrun1
+    cases hr2 : createBackwardReferences ops Example.params 8 24 (Array.replicate 32 0, ⟨0, 0⟩) [4, 11, 15, 16] 12 0 with
+    | none => rw [hr2] at hrun2; cases hrun2
+    | some res2 =>
+      rw [hr2] at hrun2
+      simp only [Option.map_some, Option.some.injEq, Prod.mk.injEq] at hrun2
+      obtain ⟨f1, f2, f3⟩ := hrun2
+      have hb1 : BlockOK Example.params false Example.data 6 32 ([] ++ Example.text.take 0)
+          ((Example.text.drop 0).take (0 + 24)) 0 :=
+        ⟨rfl, rfl, by
+          have e : [] ++ Example.text.take 0 ++ (Example.text.drop 0).take (0 + 24) = Example.text.take 24 := by decide
+          have e' : ([] ++ Example.text.take 0).length + ((Example.text.drop 0).take (0 + 24)).length = 24 := by decide
+          rw [e, e']
+          exact hring 24 (by decide), by decide, by decide, by decide, by decide, fun _ => by decide,
+          fun _ => by decide, by decide, by decide⟩
+      have m1 := Merged.call (slotOK := SlotOK Example.oracle) (w := Example.oracle) (p := Example.params)
+        (Good := GoodCmd false) (hist := []) (M := Example.text) (cache0 := [4, 11, 15, 16]) ops Example.data 6 0 [] 0
+        [4, 11, 15, 16] 0 0 24 0 0 (Array.replicate 32 0, ⟨0, 0⟩) res1 Merged.start (by decide) rfl hops
+        (emitHyp_good _ _ false _ _ 32 _ _ _ hb1) hr1
+      rw [e1, e2, e3] at m1
+      have hb2 : BlockOK Example.params false Example.data 6 32 ([] ++ Example.text.take (0 + 24 - 12))
+          ((Example.text.drop (0 + 24 - 12)).take (12 + 8)) 0 :=
+        ⟨rfl, rfl, by
+          have e : [] ++ Example.text.take (0 + 24 - 12) ++ (Example.text.drop (0 + 24 - 12)).take (12 + 8)
+              = Example.text.take 32 := by decide
+          have e' : ([] ++ Example.text.take (0 + 24 - 12)).length +
+              ((Example.text.drop (0 + 24 - 12)).take (12 + 8)).length = 32 := by decide
+          rw [e, e']
+          exact hring 32 (by decide), by decide, by decide, by decide, by decide, fun _ => by decide,
+          fun _ => by decide, by decide, by decide⟩
+      have m2 := Merged.call ops Example.data 6 0 _ _ _ _ _ 8 24 0 (Array.replicate 32 0, ⟨0, 0⟩) res2 m1 (by decide) rfl hops
+        (emitHyp_good _ _ false _ _ 32 _ _ _ hb2) hr2
+      rw [f1, f2, f3] at m2
+      have hlen : (0 + 24 + 8 : Nat) = Example.text.length := by decide
+      rw [hlen] at m2
+      obtain ⟨_, _, _, hrep⟩ := merged_metablock_q29 Example.oracle Example.params false rfl rfl [] Example.text
+        [4, 11, 15, 16] (by decide) (by decide)
+        (by intro x hx; simp at hx; rcases hx with rfl | rfl | rfl | rfl <;> decide) (by decide) _ _ _ _ m2
+      exact ⟨_, _, _, _, m2, rfl, by simpa using hrep⟩
 
 end BV.Props.C14Chain
